@@ -230,7 +230,6 @@ func runCases(in string, blackEvery int, sum *tl.Summary) {
 	w := newWorld()
 	shared := &countingCache{inner: core.NewJumpDestCache()}
 	mapShared := &countingCache{inner: vm.VerifNewMapJumpDests()}
-	huge := new(uint256.Int).Lsh(uint256.NewInt(1), 64) // 2^64: truncates to 0 as uint64
 	for i, c := range cases {
 		code := toBytes(c.Code)
 		sum.Evaluations++
@@ -267,9 +266,11 @@ func runCases(in string, blackEvery int, sum *tl.Summary) {
 		if len(code) > 0 {
 			ct := newContract(code, true, shared)
 			for _, p := range c.Valid {
-				d := new(uint256.Int).Add(huge, uint256.NewInt(uint64(p)))
-				if ct.VerifValidJumpdest(d) {
-					bad(fmt.Sprintf("validJumpdest(2^64+%d)", p), []int{p}, nil)
+				for _, sh := range []uint{64, 128, 192, 255} {
+					d := new(uint256.Int).Add(new(uint256.Int).Lsh(uint256.NewInt(1), sh), uint256.NewInt(uint64(p)))
+					if ct.VerifValidJumpdest(d) {
+						bad(fmt.Sprintf("validJumpdest(2^%d+%d)", sh, p), []int{p}, nil)
+					}
 				}
 			}
 		}
@@ -487,26 +488,80 @@ func randCode(r interface{ Intn(int) int }, maxLen int) []byte {
 	return code[:n] // truncation cuts trailing pushes anywhere
 }
 
-func runRecord(path string, seed int64, n, maxLen, blackEvery int, sum *tl.Summary) {
+// bigCode: a push-dense instruction stream (PUSH16..PUSH32, few single-byte instructions) of about
+// the given size: contract-size and initcode-size codes, where 16-bit positions/counters would wrap.
+func bigCode(r interface{ Intn(int) int }, size int) []byte {
+	code := make([]byte, 0, size+40)
+	for len(code) < size {
+		if r.Intn(20) == 0 {
+			code = append(code, []byte{0x5b, 0x00}[r.Intn(2)])
+			continue
+		}
+		op := byte(0x6f + r.Intn(17))
+		code = append(code, op)
+		for k := 0; k < int(op)-0x5f; k++ {
+			if r.Intn(2) == 0 {
+				code = append(code, 0x5b)
+			} else {
+				code = append(code, byte(r.Intn(256)))
+			}
+		}
+	}
+	return code[:size]
+}
+
+func runRecord(path string, seed int64, n, maxLen, blackEvery, big int, sum *tl.Summary) {
 	r := tl.Rand(seed)
 	tr := tl.NewTrace(path)
 	defer tr.Close()
 	w := newWorld()
 	shared := &countingCache{inner: core.NewJumpDestCache()}
 	shapes := map[string]bool{}
-	for i := 0; i < n; i++ {
-		code := randCode(r, maxLen)
+	for i := 0; i < n+big; i++ {
+		var code []byte
+		if i < n {
+			code = randCode(r, maxLen)
+		} else {
+			code = bigCode(r, []int{24576, 49152, 65536, 8192}[(i-n)%4]+r.Intn(7)-3)
+		}
 		ci := toInts(code)
 		emit := func(route string, valid []int) {
 			tr.Emit(tl.M{"route": route, "code": ci, "valid": valid})
 			sum.Count(route)
 		}
-		tr.Emit(tl.M{"route": "bitmap", "code": ci, "valid": whiteBitmap(code)})
-		sum.Count("bitmap")
+		if i < n { // the data-position list of a large code is not logged (the fast paths are model-checked on the small domain)
+			tr.Emit(tl.M{"route": "bitmap", "code": ci, "valid": whiteBitmap(code)})
+			sum.Count("bitmap")
+		}
 		emit("frame-nohash", whiteValid(code, false, nil))
 		emit("frame-cold", whiteValid(code, true, shared))
 		emit("frame-warm", whiteValid(code, true, shared))
-		if blackEvery > 0 && i%blackEvery == 0 && benign(code) {
+		if i >= n && benign(code) {
+			// large code: the EVM routes on the accepted targets near the end, the first refused
+			// JUMPDEST bytes, and the positions around len
+			want := map[int]bool{}
+			for _, p := range whiteValid(code, false, nil) {
+				want[p] = true
+			}
+			var pos []int
+			for p := len(code) + 1; p >= 0 && len(pos) < 120; p-- {
+				if p >= len(code) || code[p] == 0x5b {
+					pos = append(pos, p)
+				}
+			}
+			addr := common.BytesToAddress([]byte("bigcontract"))
+			got, other := w.blackCall(code, shared, addr, pos, sum)
+			for _, p := range pos {
+				in := false
+				for _, g := range got {
+					in = in || g == p
+				}
+				if other == "" && in != want[p] {
+					sum.Violate(fmt.Sprintf("EVM JUMP to %d in a %d-byte code: taken=%v, validJumpdest=%v", p, len(code), in, want[p]), tl.M{"len": len(code), "pos": p})
+				}
+			}
+		}
+		if i < n && blackEvery > 0 && i%blackEvery == 0 && benign(code) {
 			addr := common.BytesToAddress([]byte("contract"))
 			pos := allPositions(code)
 			for _, route := range []string{"call-cold", "call-warm"} {
@@ -531,6 +586,7 @@ func runRecord(path string, seed int64, n, maxLen, blackEvery int, sum *tl.Summa
 		if i < 2 {
 			sum.Sample(tl.M{"code": fmt.Sprintf("%x", code), "valid": whiteValid(code, false, nil)})
 		}
+		_ = i
 	}
 	if len(sum.Notes) > 5 {
 		sum.Notes = append(sum.Notes[:5], fmt.Sprintf("... %d notes", len(sum.Notes)))
@@ -549,6 +605,7 @@ func main() {
 	n := flag.Int("n", 300, "number of random codes")
 	maxLen := flag.Int("maxlen", 300, "largest random code")
 	black := flag.Int("black", 1, "run the EVM black-box routes on every k-th code (0 = never)")
+	big := flag.Int("big", 0, "additional large codes (24576, 49152, 65536, 8192 bytes)")
 	flag.Parse()
 	seed := int64(tl.EnvInt("VERIF_SEED", 1))
 	sum := tl.NewSummary("c30", *mode, seed)
@@ -560,7 +617,7 @@ func main() {
 		sum.Mode = "replay"
 		runPaths(*in, sum)
 	case "record":
-		runRecord(*trace, seed, *n, *maxLen, *black, sum)
+		runRecord(*trace, seed, *n, *maxLen, *black, *big, sum)
 	default:
 		tl.Fatal("bad mode")
 	}
